@@ -61,6 +61,18 @@ type failWriter struct {
 
 var errSink = errors.New("sink failed")
 
+// countingReader counts the bytes the wrapped reader hands out.
+type countingReader struct {
+	r io.Reader
+	n int64
+}
+
+func (c *countingReader) Read(p []byte) (int, error) {
+	k, err := c.r.Read(p)
+	c.n += int64(k)
+	return k, err
+}
+
 func (f *failWriter) Write(p []byte) (int, error) {
 	if len(p) <= f.left {
 		f.left -= len(p)
@@ -556,6 +568,41 @@ func c13Instance(c *core.Ctx, w *World, in *Inst, f *rm.Forest) {
 			return
 		}
 		c.Count("restores_by_reader:"+rk.name, 1)
+	}
+	// 1b. two records back to back in one reader (added after seeded change C13h): the count a
+	// restore reports is the number of bytes it took from the caller's reader - measured at the
+	// reader - so the next record starts exactly where this one ended
+	double := append(append([]byte(nil), stream...), stream...)
+	for _, rk := range readerKinds {
+		c.Eval(1)
+		cr := &countingReader{r: rk.mk(double, c.Rng)}
+		var r1, r2 *Inst
+		var n1, n2 int64
+		var e1, e2 error
+		if pan := safely(func() { r1, n1, e1 = restoreInst(in, cr) }); pan != nil {
+			c.Violate(restoreSite(in), "panic", "two-records,reader="+rk.name, fmt.Sprintf("%s: %v", desc, pan))
+			return
+		}
+		taken := cr.n
+		if e1 != nil || n1 != int64(len(stream)) || taken != int64(len(stream)) {
+			c.Violate(restoreSite(in), "byte-count", "two-records,reader="+rk.name, fmt.Sprintf("%s: first of two %d-byte records: reported %d bytes, took %d bytes from the reader, err=%v", desc, len(stream), n1, taken, e1))
+			return
+		}
+		if pan := safely(func() { r2, n2, e2 = restoreInst(in, cr) }); pan != nil {
+			c.Violate(restoreSite(in), "panic", "two-records,reader="+rk.name, fmt.Sprintf("%s: second record: %v", desc, pan))
+			return
+		}
+		if e2 != nil || n2 != int64(len(stream)) {
+			c.Violate(restoreSite(in), "valid-stream-rejected", "two-records,reader="+rk.name, fmt.Sprintf("%s: second of two records: reported %d bytes, err=%v", desc, n2, e2))
+			return
+		}
+		for _, r := range []*Inst{r1, r2} {
+			if msg := obsEqual(in, r, w.M, f); msg != "" {
+				c.Violate(restoreSite(in), "restored-state-differs", "two-records,reader="+rk.name, fmt.Sprintf("%s: %s", desc, msg))
+				return
+			}
+		}
+		c.Count("restores_of_two_records_from_one_reader", 1)
 	}
 	// 2. truncation at every offset
 	for _, cut := range offsets {
